@@ -12,7 +12,10 @@
    [rf_is_request_line], [rf_unescape_roff] inside [rf_doc_text]) and the general
    expectation [rf_general_doc] (styles accumulate, 256-colour / RGB forms select a colour). *)
 From Coq Require Import NArith List Bool.
+From AV Require Model.Text.
 From AV Require Import Spec.Lossy Spec.StyleRec Spec.RoffSpec Model.Base Model.Roff Proofs.Roff Generated.RoffFn Proofs.RoffGen.
+From AV Require Import Generated.RoffCrateFn Proofs.RoffCrateGen.
+From AV Require Import Generated.CansiFn Proofs.CansiSgr Proofs.CansiGen Proofs.RoffDepsGen.
 Import ListNotations.
 Local Open Scope N_scope.
 
@@ -126,3 +129,138 @@ Theorem c15_translated_document_shape : forall segs : list rf_seg,
   Forall (fun s => rf_bold_and_faint s = false) segs ->
   (ls <- g_to_roff (rf_print_D segs) ;; Some (rf_render ls)) = Some (rf_spec_doc segs).
 Proof. exact translated_document_shape. Qed.
+
+(* ---- the third-party crate roff, translated (tools/gen_fn_roffcrate.py -> Generated/RoffCrateFn.v) ----------
+   [g_rc_*] are the functions of roff 0.2.1's src/lib.rs (the cargo registry copy of the version Cargo.lock
+   pins) translated by tools/rs2v on every run: a &str / String is its UTF-8 bytes, `out: &mut dyn Write` the
+   bytes written so far, `Result<(), io::Error>` = unit + unit, a Roff the list of its lines. *)
+
+(* anstyle_roff::to_roff(text).to_roff() with BOTH halves translated (anstyle-roff's lib.rs and roff's renderer) IS
+   the hand model [rf_to_roff] the theorems above are about -- for every input, panics (None) included *)
+Theorem c15_translated_roffcrate_to_roff_is_model : forall input : list N,
+  (ls <- g_to_roff input ;; g_rc_to_roff ls) = rf_to_roff input.
+Proof. exact translated_roffcrate_to_roff_is_model. Qed.
+
+(* Roff::to_roff as translated is the hand model's renderer, and never panics *)
+Theorem c15_translated_roffcrate_render_is_model : forall ls : list rf_line,
+  g_rc_to_roff ls = Some (rf_render ls).
+Proof. exact g_rc_to_roff_eq. Qed.
+
+(* Line::render as translated, with Apostrophes::DontHandle (what to_roff passes): the line is appended to the
+   bytes written so far and the result is Ok(()) *)
+Theorem c15_translated_roffcrate_line_render_is_model : forall (l : rf_line) (out : list N),
+  g_rc_line_render l out RfDontHandle = Some (out ++ rf_render_line l, inl tt).
+Proof. exact g_rc_line_render_eq. Qed.
+
+(* the escaping helpers *)
+Theorem c15_translated_roffcrate_escape_inline_is_model : forall s : list N,
+  g_rc_escape_inline s = rf_escape_inline s.
+Proof. exact g_rc_escape_inline_eq. Qed.
+
+Theorem c15_translated_roffcrate_escape_leading_cc_is_model : forall s : list N,
+  g_rc_escape_leading_cc s = rf_escape_leading_cc s.
+Proof. exact g_rc_escape_leading_cc_eq. Qed.
+
+Theorem c15_translated_roffcrate_starts_with_cc_is_model : forall s : list N,
+  g_rc_starts_with_cc s = rf_starts_with_cc s.
+Proof. exact g_rc_starts_with_cc_eq. Qed.
+
+Theorem c15_translated_roffcrate_escape_spaces_is_model : forall w : list N,
+  g_rc_escape_spaces w = rf_escape_spaces w.
+Proof. exact g_rc_escape_spaces_eq. Qed.
+
+(* the document builders: Roff::new, Roff::control, Roff::text (both return `&mut Self`: the updated document is
+   the new value of self and the value of the call), Line::control / Line::text, roman / bold / italic / line_break *)
+Theorem c15_translated_roffcrate_new_is_model : g_rc_new = rf_roff_new.
+Proof. exact g_rc_new_eq. Qed.
+
+Theorem c15_translated_roffcrate_control_is_model : forall (d : list rf_line) (name : list N) (args : list (list N)),
+  g_rc_control d name args = (rf_roff_control d name args, rf_roff_control d name args).
+Proof. exact g_rc_control_eq. Qed.
+
+Theorem c15_translated_roffcrate_text_is_model : forall (d : list rf_line) (inlines : list rf_inline),
+  g_rc_text d inlines = (rf_roff_text d inlines, rf_roff_text d inlines).
+Proof. exact g_rc_text_eq. Qed.
+
+Theorem c15_translated_roffcrate_line_control_is_model : forall (name : list N) (args : list (list N)),
+  g_rc_line_control name args = RfControl name args.
+Proof. exact g_rc_line_control_eq. Qed.
+
+Theorem c15_translated_roffcrate_line_text_is_model : forall parts : list rf_inline,
+  g_rc_line_text parts = RfText parts.
+Proof. exact g_rc_line_text_eq. Qed.
+
+Theorem c15_translated_roffcrate_roman_is_model : forall t : list N, g_rc_roman t = RfInRoman t.
+Proof. exact g_rc_roman_eq. Qed.
+
+Theorem c15_translated_roffcrate_bold_is_model : forall t : list N, g_rc_bold t = RfInBold t.
+Proof. exact g_rc_bold_eq. Qed.
+
+Theorem c15_translated_roffcrate_italic_is_model : forall t : list N, g_rc_italic t = RfInItalic t.
+Proof. exact g_rc_italic_eq. Qed.
+
+Theorem c15_translated_roffcrate_line_break_is_model : g_rc_line_break = RfInLineBreak.
+Proof. exact g_rc_line_break_eq. Qed.
+
+(* the part of the crate anstyle-roff does not use: Roff::render / Roff::to_writer (apostrophe handling).  Every
+   line is rendered with Apostrophes::Handle ([rc_render_line RfHandle]: as [rf_render_line], but every apostrophe
+   of an inline text becomes \*(Aq), after the preamble that defines that string *)
+Theorem c15_translated_roffcrate_render_handle : forall d : list rf_line,
+  g_rc_render d = Some (g_rc_APOSTROPHE_PREABMLE ++ rc_render_doc RfHandle d).
+Proof. exact g_rc_render_eq. Qed.
+
+Theorem c15_translated_roffcrate_to_writer_handle : forall (d : list rf_line) (w : list N),
+  g_rc_to_writer d w = Some (w ++ g_rc_APOSTROPHE_PREABMLE ++ rc_render_doc RfHandle d, inl tt).
+Proof. exact g_rc_to_writer_eq. Qed.
+
+Theorem c15_translated_roffcrate_dont_handle_is_model : forall l : rf_line,
+  rc_render_line RfDontHandle l = rf_render_line l.
+Proof. exact rc_render_line_dont. Qed.
+(* ---- the translated dependency cansi (tools/gen_fn_cansi.py -> Generated/CansiFn.v) ----------------------
+   [g_cansi_parse], [g_cansi_adjust_sgr], [g_cansi_handle_seq], [g_cansi_categorise_text] are the functions of the
+   third-party crate cansi (src/parsing.rs, src/categorise.rs of the registry copy of the version Cargo.lock pins)
+   translated by tools/rs2v on every run; [rf_categorise] / [rf_adjust_sgr] / [rf_handle_seq] is the hand model the
+   theorems above are about. *)
+
+(* adjust_sgr, all 48 arms and the wildcard (incl. the recorded quirks: "0" answers SGR::default() -- with
+   handle_seq's fold from the default that is F15-1; no arm for 38 / 48 -- F15-2; ONE intensity field written by
+   1, 2 and 22 -- F15-3) *)
+Theorem c15_translated_cansi_adjust_sgr_is_model : forall (sgr : rf_sgr) (seq : list N),
+  g_cansi_adjust_sgr sgr seq = rf_adjust_sgr sgr seq.
+Proof. exact g_cansi_adjust_sgr_eq. Qed.
+
+(* handle_seq on a Match as parse records it (ESC [ parameters terminator): split at ';', folded from SGR::default() *)
+Theorem c15_translated_cansi_handle_seq_is_model : forall (a e : N) (p : list N) (tb : N),
+  g_cansi_handle_seq (mkRfMatch a e (27 :: 91 :: p ++ [tb])) = Some (rf_handle_seq p).
+Proof. exact g_cansi_handle_seq_eq. Qed.
+
+(* parse (both loops, byte offsets, the char-wise step) never panics and finds exactly the matches [rf_matches]
+   (Proofs/CansiGen.v: a structural function of the text that is left) -- for EVERY byte string *)
+Theorem c15_translated_cansi_parse_is_matches : forall text : list N,
+  g_cansi_parse text = Some (rf_matches (S (S (length text))) 0 text).
+Proof. exact g_cansi_parse_eq. Qed.
+
+(* cansi::v3::categorise_text IS the hand model's one-pass categoriser on every string of UTF-8 shaped chars ... *)
+Theorem c15_translated_cansi_categorise_is_model : forall text : list N,
+  rf_utf8_ok text -> g_cansi_categorise_text text = Some (rf_categorise text).
+Proof. exact g_cansi_categorise_text_eq. Qed.
+
+(* ... which the bytes of every Rust string are (the UTF-8 encoding of any list of code points, Model/Text.v) *)
+Theorem c15_translated_cansi_categorise_on_strings : forall w : list N,
+  g_cansi_categorise_text (Model.Text.str_bytes w) = Some (rf_categorise (Model.Text.str_bytes w)).
+Proof. exact translated_cansi_categorise_is_model. Qed.
+
+(* the pipeline with the translated cansi in front is the hand model [rf_to_roff] of the theorems above *)
+Theorem c15_translated_cansi_to_roff_is_model : forall input : list N, rf_utf8_ok input ->
+  (cs <- g_cansi_categorise_text input ;; ls <- rf_doc_lines cs ;; Some (rf_render ls)) = rf_to_roff input.
+Proof. exact translated_cansi_to_roff_is_model. Qed.
+
+(* BOTH third-party dependencies translated: cansi in front of, roff's renderer behind the lines of anstyle-roff *)
+Theorem c15_translated_dependencies_to_roff_is_model : forall input : list N, rf_utf8_ok input ->
+  (cs <- g_cansi_categorise_text input ;; ls <- rf_doc_lines cs ;; g_rc_to_roff ls) = rf_to_roff input.
+Proof. exact translated_dependencies_to_roff_is_model. Qed.
+
+Theorem c15_translated_pipeline_is_model : forall input : list N, rf_utf8_ok input ->
+  g_cansi_categorise_text input = Some (rf_categorise input) /\
+  (ls <- g_to_roff input ;; g_rc_to_roff ls) = rf_to_roff input.
+Proof. exact translated_pipeline_is_model. Qed.
